@@ -177,6 +177,7 @@ class Property:
         self.closed_named = {}  # "<lemma>.<step>" -> closed formula proven by that lemma VC
         self.record_defaults = {}
         self.field_owners = {}  # field -> classes that have it (for hasattr); absent: every class
+        self.exc_parents = {}  # exception class -> base classes (for except clauses)
         self.by_name_lists = set()  # element classes whose lists are EvalableLists (lookup by .name)
         self.oracle = None  # module name under /verif/oracles
         self.mutants = []
